@@ -76,12 +76,17 @@ func symxC19Topics() {
 			p := symxSafely(func() { t.Remove(key) })
 			rt.Assert(!p, "C19.topics.no_panic")
 			ref[k] = nil
-		case 3: // dump -> load into a fresh store
+		case 3: // dump -> load
 			buf, err := t.Dump()
 			rt.Assert(err == nil, "C19.topics.dump_ok")
-			t2 := NewTree()
-			rt.Assert(t2.Load(buf) == nil, "C19.topics.load_ok")
-			t = t2
+			// into a fresh store, or back into the store the dump came from
+			if rt.Bool("load_into_the_same_store") {
+				rt.Assert(t.Load(buf) == nil, "C19.topics.load_ok")
+			} else {
+				t2 := NewTree()
+				rt.Assert(t2.Load(buf) == nil, "C19.topics.load_ok")
+				t = t2
+			}
 			loaded = true
 		}
 		symxCheckAll(t, &ref, "step")
